@@ -299,8 +299,40 @@ pub fn generate(case_seed: u64, idx: u64, tier: Tier) -> TCase {
     let bucket = *rng.pick(&[64usize, 128, 256, 512]);
     match idx % 3 {
         0 => {
-            let n = rng.range(4, if tier == Tier::Thorough { 22 } else { 12 });
-            TCase::Seq { seed: case_seed, bucket, ops: (0..n).map(|_| gen_op(&mut rng, true, true)).collect(), queries: (0..5).map(|_| TQ::generate(&mut rng, 3)).collect() }
+            let ops: Vec<TOp> = if rng.chance(1, 3) {
+                // flush-heavy regime over a narrow vocabulary: most mutations meet
+                // fully persisted (clean) buckets and most tokens of a new document
+                // are already tracked, so per-bucket bookkeeping that is only
+                // exercised by the *next* flush cannot hide behind a neighbour
+                let n = rng.range(10, if tier == Tier::Thorough { 48 } else { 30 });
+                let narrow: Vec<u8> = (0..rng.range(3, 5)).map(|_| rng.below(10) as u8).collect();
+                let mut ops = Vec::new();
+                for _ in 0..n {
+                    let mut op = gen_op(&mut rng, true, true);
+                    match &mut op {
+                        TOp::Insert { words, .. } if rng.chance(3, 4) => {
+                            for w in words.iter_mut() {
+                                *w = *rng.pick(&narrow);
+                            }
+                        }
+                        TOp::Remove { other, .. } if rng.chance(1, 2) => {
+                            // non-original text, mostly outside the narrow vocabulary
+                            *other = Some((0..rng.range(1, 3)).map(|_| rng.below(10) as u8).collect());
+                        }
+                        _ => {}
+                    }
+                    let mutation = !matches!(op, TOp::Flush | TOp::Reload);
+                    ops.push(op);
+                    if mutation && rng.chance(3, 4) {
+                        ops.push(TOp::Flush);
+                    }
+                }
+                ops
+            } else {
+                let n = rng.range(4, if tier == Tier::Thorough { 22 } else { 12 });
+                (0..n).map(|_| gen_op(&mut rng, true, true)).collect()
+            };
+            TCase::Seq { seed: case_seed, bucket, ops, queries: (0..5).map(|_| TQ::generate(&mut rng, 3)).collect() }
         }
         1 => {
             let n = rng.range(4, 14);
